@@ -32,7 +32,9 @@ ASSUMPTIONS = ["DUMP -all writes every stored reactant with >=14 significant dig
                "surfaces (known finding: diffuse-layer water created at first contact; they are defined with -equilibrate instead), two SOLID_SOLUTIONS blocks of one history "
                "sharing a solid-solution name (known finding: the second is solved with the phases of the first), steps with a solid "
                "solution that converge only in the engine's retry 'Adding inequality to make concentrations greater than zero' "
-               "(known finding: mass leaks; recognised by that warning text after the run), KINETICS -cvode true (the engine does "
+               "(known finding: mass leaks; recognised by that warning text after the run), the default Newton step sizes (known finding: inventories rounded after 1e6..1e7 mol Newton "
+               "excursions; every input sets KNOBS -step_size 10 -pe_step_size 5), O2(g) as pure phase together with O2(g) in the gas phase (known finding: Ba deficit), "
+               "KINETICS -cvode true (the engine does "
                "not return when a CVODE sub-step cannot be converged: every kinetic block is integrated with Runge-Kutta), kinetic "
                "uptake of substances not abundantly present in every solution (engine does not return)"]
 TECHNIQUE = "property-based testing (Hypothesis) with an independent inventory oracle over DUMP text"
